@@ -152,7 +152,21 @@ func (r *runner) c01Predicate(tree map[string]string, events []string, where str
 			}
 		}
 	}
+	// files finalized by a file-writing component (FileSplitter parts): complete once at the final path
+	for f, want := range r.ref.CompFiles {
+		if got, ok := tree[f]; ok && got != want {
+			if r.seedTree != nil {
+				if sc, was := r.seedTree[f]; was && sc == got {
+					continue
+				}
+			}
+			add("partial-output", fmt.Sprintf("%s at its final path holds %q, complete content is %q (%s)", f, clip(got, 40), clip(want, 40), where))
+		}
+	}
 	for p, c := range tree {
+		if _, comp := r.ref.CompFiles[p]; comp {
+			continue
+		}
 		if c == "<dir>" || strings.HasSuffix(p, ".audit.json") || strings.HasSuffix(p, ".audit.json.tmp") || isTemp(p) {
 			continue // the audit side-car (and its write-then-rename sibling) is not an output file
 		}
